@@ -53,7 +53,7 @@ def run(ctx):
     rep.guarded("macros", "verif_harness::macros", lambda: rule_macros(facts, rep))
     rep.guarded("atomic", "colorchoice::USER", lambda: rule_atomic(facts, rep))
     rep.guarded("positive", "verif_harness::positive", lambda: rule_positive(facts, rep))
-    for r, n in (("sealed", 13), ("overrides", 3), ("one-lock", 30), ("helpers", 6), ("macros", 14), ("atomic", 6), ("positive", 2)):
+    for r, n in (("sealed", 13), ("overrides", 3), ("one-lock", 45), ("helpers", 6), ("macros", 14), ("atomic", 6), ("positive", 2)):
         rep.floor(r, n)
 
 
@@ -138,6 +138,16 @@ def one_lock_method(facts, rep, crate, ty, prefix, lock_callee, meth):
                 arm = [hir.last_seg(hir.pat_path(t[2])) for t in p.trace if t[0] == "arm"]
                 rep.check(n == 1, "one-lock", b["path"], f"path{pi}{':' + arm[0] if arm else ''}",
                           f"exactly one lock acquisition per call (direct as_locked_write() or one delegation to a sibling override); found {n}", loc(b))
+            # a lock acquired inside a closure is acquired once per invocation of the closure (e.g. once per formatted fragment)
+            in_closure = []
+            for clo in [n for n in hir.walk(b["hir"]) if n.get("k") == "closure"]:
+                for c in hir.walk(clo["body"]):
+                    if c.get("k") == "call" and (hir.callee_decl(c) == lock_callee or hir.callee(c) == lock_callee or
+                                                 hir.callee(c).startswith("std::io::stdio::") and hir.callee(c).endswith("::lock")):
+                        in_closure.append(c)
+            rep.check(not in_closure, "one-lock", b["path"], "no-lock-inside-a-closure",
+                      "the lock is taken inside a closure, i.e. once per invocation (per formatted fragment / per chunk), so another "
+                      "thread's output can land between the pieces of one call", loc(b, in_closure[0]) if in_closure else loc(b))
             # MIR: the guard outlives the call that uses it
             m = b.get("mir")
             if not m:
